@@ -16,8 +16,8 @@
      arc is n CubeTo calls and nothing else; the relative form is the absolute form at the converted point.
    * large_arc_flag: with the centre chosen by the code (sign of the square root from large = sweep), the
      sweep has magnitude >= pi when the large-arc flag is set and <= pi when it is not.
-   PARTIAL — not proved: that the control points make each cubic a good approximation of its ellipse segment,
-   and any bound on float rounding. *)
+   Not proved: any bound on float rounding (incl. the float evaluation of the segment count), and how well the
+   control points make each cubic approximate its ellipse segment (the property only asks for the segment ends). *)
 From Coq Require Import Reals ZArith Bool List.
 From IVG Require Import SF NumCodec Color Calls Render GoMath Arc GeomR ArcR ArcAngles RenderProofs ArcProofs.
 Import ListNotations.
